@@ -364,6 +364,26 @@ def never_rule(ctx):
     return obs
 
 
+def hole_rule(ctx):
+    """path arrays are written without empty elements: `[,"g"]` / `[a,,b]` (lib/dyck.py follows the separator flags)"""
+    import dyck
+    ob = ctx.ob
+    tc = ctx.tc
+    fns = [f for f in tc.fns if f.body and f.module[:1] in (["proc_gen"], ["group"], ["binding_map"])]
+    A = dyck.Analyzer(tc, fns)
+    for f in fns:
+        A.summary(f)
+    obs = []
+    targets = [f for f in fns if "lvalue" in f.name or f.name in ("to_lvalue_path_arr", "write_lvalue_path")]
+    for f in targets:
+        hs = sorted(A.holes.get(f.qual, []))
+        obs.append(ob("C11.agree/no-hole/%s" % f.qual, not hs, ctx.where(f), "; ".join(hs) if hs else "no path through the separator flags writes an empty array element",
+                      witness=None if not hs else "`(c ? m : n).g` as an l-value yields `[..].concat([,\"g\"])`: a hole instead of the member name"))
+    if len(targets) < 3:
+        obs.append(ob("C11.floor/no-hole", False, "proc_gen/expr.rs", "only %d l-value path writers found (floor 3)" % len(targets)))
+    return obs
+
+
 def run(ctx):
     r = agree_rule(ctx)
     if isinstance(r, tuple):
@@ -383,4 +403,5 @@ def run(ctx):
             x = dict(x)
             x["key"] = x["key"].replace("C07.emit/agree", "C11.sibling")
             obs.append(x)
+    obs += hole_rule(ctx)
     return obs
